@@ -87,10 +87,25 @@ def search(chk, broken):
             shot, _ = sg.gen_shot(pbc, rng, flat=True, allow_cant=False, max_look=10.0, mv=rng.uniform(1125, 1190))
             calc = pbc.Calculator()
             R, step = 600.0, rng.choice([0.5, 1.0, 1.5])
+        ladder = rng.random() < 0.35
+        if ladder:
+            # long flat fire: the same shot requested to a ladder of ranges (the rows a shorter request shares with a longer one must not
+            # depend on where the request ends — e.g. on whether the whole flight stays near the station altitude)
+            R, step = 150.0 * rng.randint(20, 30), 150.0
         base, why = fire(pbc, calc, shot, R, step)
         if why or len(base) < 3:
             continue
         evals += 1
+        if ladder:
+            for frac in (0.55, 0.7, 0.8, 0.9):
+                R2 = step * max(2, int(frac * R / step))
+                short, _ = fire(pbc, calc, shot, R2, step)
+                k = sum(1 for r in short if r.distance.raw_value <= R2 * 12 * (1 + 1e-12))
+                if [vals(r) for r in short[:k]] != [vals(r) for r in base[:k]]:
+                    j = next(i for i in range(k) if vals(short[i]) != vals(base[i]))
+                    chk.failures.append(Failure('range-changes-rows', f'the row at {short[j].distance.raw_value / 12:.1f} ft differs between a request to {R2} ft and one to {R} ft '
+                                                                      f'(same shot, same step {step} ft)', {'op': 'range-ladder', 'R': R, 'R2': R2, 'step': step, 'row_ft': short[j].distance.raw_value / 12}))
+                    break
         # shorter range: prefix, bit for bit
         R2 = step * rng.randint(2, max(2, int(R / step) - 1))
         short, _ = fire(pbc, calc, shot, R2, step)
